@@ -443,6 +443,6 @@ func init() {
 		Real:        []string{"smtp.Server.Serve/handleConn, handleStartTLS, handleGreet", "smtp.Client: NewClientStartTLS, DialStartTLS, SendMail, startTLS/setConn, hello, Mail", "crypto/tls client and server", "net/textproto"},
 		Stub:        []string{"net.Listener (SimListener)", "net.Conn (SimConn, with a raw tap below TLS)", "Backend/AuthSession (SimBackend)", "hostile SMTP server (stub) for the client half", "dialing (VerifDial hook, build tag verif)", "clock (synctest)"},
 		Assumptions: []string{"after a failed handshake nothing is judged except C08's rules", "package-level SendMail verifies certificates with the default configuration, so against the simulated self-signed peer only its failure modes are reachable"},
-		QuickRuns:   1500, ThoroughRuns: 300000,
+		QuickRuns:   12000, ThoroughRuns: 600000,
 	})
 }
